@@ -265,9 +265,20 @@ def run(ctx):
     for kind in ("seg", "grp"):
         for k in range(8):
             jobs.append((kind, "2.5", seqs[k::8]))
+    import json as _json
+    seen_total = [0]
+
+    def compact(evs):
+        """identical observations once (the lock-step replays repeat themselves a lot; the thorough tier would not fit)"""
+        uq = {}
+        for e in evs:
+            uq.setdefault(_json.dumps([e[k] for k in ("what", "conc", "out_s", "out_t", "enc_s", "enc_t", "rep_s", "rep_t", "kinds_s")]), e)
+        seen_total[0] += len(evs) - len(uq)
+        return list(uq.values())
     events = []
     for part in pmap(lockstep_tree, jobs):
-        events.extend(part)
+        events.extend(compact(part))
+    events = compact(events)
     pj = []
     for v in (T.versions() if not quick else ["2.3", "2.5", "2.7", "2.8.2"]):
         items = texts_for(v, rnd, quick)
@@ -290,14 +301,15 @@ def run(ctx):
     from . import handles
     hev = []
     for cfgname in (["HandlesMC_q.cfg"] if quick else ["HandlesMC_t.cfg", "HandlesMC_t2.cfg"]):
-        rh, hists = handles.histories(cfgname)
+        # (in a process of its own: the parsed dump of the thorough configurations takes gigabytes, which every worker
+        #  forked later would inherit)
+        rh, hists = pmap(handles.histories, [(cfgname, 4000 if quick else 150000, ctx.seed)], fresh=True)[0]
+        ctx.extra["handle_histories_of_the_model"] = ctx.extra.get("handle_histories_of_the_model", 0) + getattr(rh, "total_histories", len(hists))
         if rh.violated or not rh.completed:
             ctx.machinery_failure("HandlesMC %s: %r\n%s" % (cfgname, rh.violated, rh.raw[-1200:]))
         ctx.add_mc(rh, "HandlesMC (%s): CardinalityKept, SubsetOfTolerant, TypeOK over every history of taking handles, "
                        "assigning, attaching and writing through handles" % cfgname)
         ctx.extra.setdefault("handle_histories", 0)
-        if quick:
-            hists = rnd.sample(hists, min(len(hists), 4000))
         ctx.extra["handle_histories"] += len(hists)
         hj = [(kind, hists[k::5]) for kind in ("seg", "msg", "grp") for k in range(5)]
         for a, b in pmap(handles.lockstep, hj):
@@ -323,7 +335,7 @@ def run(ctx):
     uniq = {}
     for e in events:
         uniq.setdefault(json.dumps([e[k] for k in ("what", "conc", "out_s", "out_t", "enc_s", "enc_t", "rep_s", "rep_t", "kinds_s")]), e)
-    ctx.evaluations += len(events)
+    ctx.evaluations += len(events) + seen_total[0]
     events = list(uniq.values())
     for i, e in enumerate(events):
         e["id"] = i + 1
